@@ -1,5 +1,20 @@
 #!/bin/bash
 # checks/C18.json "pre_build": regenerate coq/Gen/Race_gen.v from the tree under check (VERIF_REPO, default /repo).
+# Exit status non-zero = the table could not be produced; in that case the file is OVERWRITTEN with a version that
+# withholds the four gen_race_* definitions (so a stale table of another tree can never stand in).
 export GOFLAGS=-mod=mod GOPROXY=off GOSUMDB=off GOTOOLCHAIN=local CGO_ENABLED=0
+OUT=/verif/coq/Gen/Race_gen.v
 cd /verif/harness || exit 2
-exec go run cmd/C18/gen_race.go cmd/C18/sites.go -repo "${VERIF_REPO:-/repo}" -out /verif/coq/Gen/Race_gen.v
+go run cmd/C18/gen_race.go cmd/C18/sites.go -repo "${VERIF_REPO:-/repo}" -out "$OUT"
+rc=$?
+if [ $rc -ne 0 ] && ! grep -q 'gen_race_unrecognised : list string := \["' "$OUT" 2>/dev/null; then
+  # the generator itself did not run (toolchain failure): withhold
+  cat > "$OUT" <<'STUB'
+(* GENERATED stub: harness/cmd/C18/gen_race.go could not be run - the site tables are withheld. *)
+From Coq Require Import List String.
+Import ListNotations.
+Open Scope string_scope.
+Definition gen_race_unrecognised : list string := ["the generator could not be run (go toolchain / harness/cmd/C18/gen_race.go)"].
+STUB
+fi
+exit $rc
